@@ -1,11 +1,9 @@
 //! C07 / C05: contracts for `rt::rwlock` (child module of `rt::rwlock`).
-//! LIMIT: the reader set is a `HashSet<thread::Id>`. Kani cannot execute hashbrown (a concrete
-//! insert/contains/remove does not terminate within 10 minutes) and rejects a stub for
-//! `HashSet::remove`, so the functions that manipulate the reader set
-//! (`post_acquire_read_lock`, `release_read_lock`) are NOT under contract.  Under contract: the
-//! write side and everything that only inspects the *shape* of the lock (Free / Read(_) / Write(t)).
-//! A read-locked state is represented by `Locked::Read` over an empty set (never inspected by the
-//! functions under contract).
+//! The reader set is a `HashSet<thread::Id>`; Kani cannot execute hashbrown.  In the verification build
+//! the import line `use std::collections::HashSet;` of rt/rwlock.rs is substituted (one line, checked by
+//! lib/scratch.py::substitute_deps) by the array-backed set of `kani/common/vecset.rs`, which implements
+//! the ASSUMED contract of the dependency (finite mathematical set, assumption A9).  With that, the read
+//! side (`try_acquire_read_lock`, `post_acquire_read_lock`, `release_read_lock`) is under contract too.
 use super::*;
 use crate::rt::object::verif_kani::{mk_op, ref_index};
 use crate::rt::synchronize::verif_kani::{any_sync, hb as sync_hb};
@@ -13,6 +11,9 @@ use crate::rt::thread::verif_kani::*;
 use crate::rt::vv::verif_kani::{eq as vv_eq, is_join, join_of};
 use crate::{oblige, reach};
 use std::mem::ManuallyDrop;
+
+#[path = "../common/vecset.rs"]
+pub(crate) mod vecset;
 
 pub(crate) const N: usize = 3;
 
@@ -24,11 +25,19 @@ pub(crate) enum LockView {
     Write { writer: usize },
 }
 
-pub(crate) fn lock_view(s: &State, _set: &thread::Set) -> LockView {
+pub(crate) fn lock_view(s: &State, set: &thread::Set) -> LockView {
     match &s.lock {
         None => LockView::Free,
         Some(Locked::Write(w)) => LockView::Write { writer: w.as_usize() },
-        Some(Locked::Read(_)) => LockView::Read { readers: 0 },
+        Some(Locked::Read(r)) => {
+            let mut bits = 0u8;
+            if r.contains(&id_of(set, 0)) { bits |= 1; }
+            if r.contains(&id_of(set, 1)) { bits |= 2; }
+            if r.contains(&id_of(set, 2)) { bits |= 4; }
+            // representation invariant of the view: nothing but ids of the N threads is in the set
+            let extra = r.len() != (bits & 1) as usize + ((bits >> 1) & 1) as usize + ((bits >> 2) & 1) as usize;
+            LockView::Read { readers: if extra { 0x80 | bits } else { bits } }
+        }
     }
 }
 
@@ -40,7 +49,17 @@ pub(crate) fn any_lock(set: &thread::Set) -> Option<Locked> {
         1 => Some(Locked::Write(id_of(set, 0))),
         2 => Some(Locked::Write(id_of(set, 1))),
         3 => Some(Locked::Write(id_of(set, 2))),
-        _ => Some(Locked::Read(HashSet::new())),
+        _ => {
+            // every non-empty reader set over the N threads (an empty set is never stored: the last
+            // reader's release resets the lock to None)
+            let bits: u8 = kani::any();
+            kani::assume(bits >= 1 && bits < 8);
+            let mut r = HashSet::new();
+            if bits & 1 != 0 { r.insert(id_of(set, 0)); }
+            if bits & 2 != 0 { r.insert(id_of(set, 1)); }
+            if bits & 4 != 0 { r.insert(id_of(set, 2)); }
+            Some(Locked::Read(r))
+        }
     }
 }
 
@@ -201,6 +220,120 @@ fn c07_rwlock_inspect_and_new() {
     oblige!("C07.rwlock.new.free_with_empty_view", lf == LockView::Free && vv_eq(&sf, &crate::rt::vv::verif_kani::zero_vv()) && ref_index(&fresh.state) == 2);
     reach!("c07_rwlock_inspect_and_new");
 }
+}
+
+fn read_acquire_body() {
+    let (mut ex, l) = rw_exec();
+    let old = set_view(&ex.threads);
+    let a = old.active.unwrap();
+    let (lo, so) = lv(&ex, &l);
+    let ret = crate::rt::scheduler::verif_kani::with_ctx(&mut ex, || l.try_acquire_read_lock(Location::disabled()));
+    let new = set_view(&ex.threads);
+    let (ln, sn) = lv(&ex, &l);
+    let compatible = !matches!(lo, LockView::Write { .. });
+    oblige!("C07.rwlock.read_acquire.succeeds_iff_not_write_locked", ret == compatible);
+    oblige!("C07.rwlock.read_acquire.sync_point_untouched", vv_eq(&so, &sn));
+    let want = match lo {
+        LockView::Free => LockView::Read { readers: 1u8 << a },
+        LockView::Read { readers } => LockView::Read { readers: readers | (1u8 << a) },
+        w => w,
+    };
+    oblige!("C07.rwlock.read_acquire.reader_set_gains_exactly_the_caller", ln == want);
+    let mut i = 0;
+    while i < N {
+        let (o, n) = (old.th[i], new.th[i]);
+        if !ret {
+            oblige!("C07.rwlock.read_acquire.failure_changes_no_thread", if i == a { n.op == Some((0, READ)) && n.st == o.st && vv_eq(&n.causality, &o.causality) } else { th_view_eq(&o, &n) });
+        } else if i == a {
+            oblige!("C07.rwlock.read_acquire.acquires_exactly_the_release_view", is_join(&n.causality, &o.causality, &so) && n.st == o.st && n.op == Some((0, READ))
+                && vv_eq(&n.released, &o.released) && vv_eq(&n.dpor_vv, &o.dpor_vv));
+        } else if o.op == Some((0, WRITE)) {
+            oblige!("C07.rwlock.read_acquire.blocks_every_pending_writer", n.st == StView::Blocked && th_view_eq_except_state(&o, &n));
+            oblige!("C08.token_kept.rwlock_read_acquire", has_token(&n) == has_token(&o));
+        } else {
+            oblige!("C07.rwlock.read_acquire.pending_readers_and_other_threads_untouched", th_view_eq(&o, &n));
+        }
+        i += 1;
+    }
+    reach!("c07_rwlock_read_acquire");
+}
+
+crate::with_fire_forbidden! {
+//@ props=C07,C05,C08 tier=quick fns=src/rt/rwlock.rs::RwLock::try_acquire_read_lock,src/rt/rwlock.rs::RwLock::post_acquire_read_lock bounded=threads:N=3 models=VersionVec::join=s_vv_models_agree,Execution::schedule=probe,Scheduler::switch=counting,std::collections::HashSet=vecset
+#[kani::proof]
+#[kani::unwind(7)]
+#[kani::stub(crate::rt::execution::Execution::schedule, crate::rt::execution::Execution::schedule_probe_model)]
+#[kani::stub(crate::rt::scheduler::Scheduler::switch, crate::rt::scheduler::verif_kani::switch_counting_model)]
+fn c07_rwlock_read_acquire() {
+    read_acquire_body();
+}
+}
+
+fn read_release_body() {
+    let (mut ex, l) = rw_exec();
+    let old = set_view(&ex.threads);
+    let a = old.active.unwrap();
+    let oa = old.th[a];
+    let (lo, so) = lv(&ex, &l);
+    // precondition: the caller holds a read guard
+    let readers = match lo {
+        LockView::Read { readers } => readers,
+        _ => 0,
+    };
+    kani::assume(readers & 0x80 == 0 && readers & (1u8 << a) != 0);
+    crate::rt::scheduler::verif_kani::with_ctx(&mut ex, || l.release_read_lock());
+    let new = set_view(&ex.threads);
+    let (ln, sn) = lv(&ex, &l);
+    let rest = readers & !(1u8 << a);
+    let last = rest == 0;
+    oblige!("C07.rwlock.read_release.reader_set_loses_exactly_the_caller", ln == if last { LockView::Free } else { LockView::Read { readers: rest } });
+    oblige!("C07.rwlock.read_release.every_reader_publishes_exactly_its_view", vv_eq(&sn, &join_of(&join_of(&so, &oa.released), &oa.causality)));
+    let mut i = 0;
+    while i < N {
+        let (o, n) = (old.th[i], new.th[i]);
+        if !last {
+            oblige!("C07.rwlock.read_release.non_last_reader_wakes_nobody", th_view_eq(&o, &n));
+        } else if i != a && o.op.map(|x| x.0) == Some(0) && o.st == StView::Blocked {
+            oblige!("C07.rwlock.read_release.last_reader_wakes_all_blocked_contenders", n.st == woken(&o) && !n.pending_unpark && th_view_eq_except_state(&o, &n));
+        } else if i != a && o.op.map(|x| x.0) == Some(0) && has_token(&o) {
+            oblige!("C08.token_kept.rwlock_read_release", th_view_eq(&o, &n));
+        } else if i != a && o.op.map(|x| x.0) == Some(0) {
+            oblige!("C07.rwlock.read_release.unblocked_contender_stays_runnable", n.st == o.st && th_view_eq_except_state(&o, &n));
+        } else {
+            oblige!("C07.rwlock.read_release.frame_other_threads", th_view_eq(&o, &n));
+        }
+        i += 1;
+    }
+    reach!("c07_rwlock_read_release");
+}
+
+crate::with_fire_forbidden! {
+//@ props=C07,C05,C08 tier=quick fns=src/rt/rwlock.rs::RwLock::release_read_lock,src/rt/rwlock.rs::RwLock::unlock_threads bounded=threads:N=3 models=VersionVec::join=s_vv_models_agree,std::collections::HashSet=vecset
+#[kani::proof]
+#[kani::unwind(7)]
+fn c07_rwlock_read_release() {
+    read_release_body();
+}
+}
+
+/// The assumed contract of the substituted dependency holds for the substitute (sanity of A9's model).
+//@ props=C07 tier=quick fns=src/rt/rwlock.rs::Locked bounded=elements:5 models=std::collections::HashSet=vecset
+#[kani::proof]
+#[kani::unwind(7)]
+fn c07_vecset_implements_a_finite_set() {
+    let mut s: HashSet<u8> = HashSet::new();
+    oblige!("C07.vecset.new_is_empty", s.is_empty() && s.len() == 0);
+    let (x, y, z): (u8, u8, u8) = (kani::any(), kani::any(), kani::any());
+    kani::assume(x != y);
+    s.insert(x);
+    s.insert(y);
+    s.insert(x);
+    oblige!("C07.vecset.insert_is_idempotent_and_adds", s.len() == 2 && s.contains(&x) && s.contains(&y) && (s.contains(&z) == (z == x || z == y)));
+    s.remove(&x);
+    oblige!("C07.vecset.remove_deletes_exactly_the_element", s.len() == 1 && !s.contains(&x) && s.contains(&y) && !s.is_empty());
+    s.remove(&y);
+    oblige!("C07.vecset.empty_after_removing_all", s.is_empty());
+    reach!("c07_vecset_implements_a_finite_set");
 }
 
 pub(crate) fn free_rwlock_state() -> State {
